@@ -7,6 +7,7 @@
 mod build;
 mod common;
 mod observe;
+mod par;
 mod props;
 
 #[allow(unused_imports)]
@@ -20,6 +21,9 @@ fn main() {
         ("drive", "range") => props::range::drive(&args),
         ("replay", "ods") => props::ods::replay(&args),
         ("drive", "ods") => props::ods::drive(&args),
+        ("replay", "xlsb") => props::xlsb::replay(&args),
+        ("replay", "xlsbframes") => props::xlsb::frames(&args),
+        ("drive", "xlsb") => props::xlsb::drive(&args),
         _ => {
             eprintln!("unknown command {} {}", args.cmd, args.sub);
             2
